@@ -534,12 +534,16 @@ func startCode(code int, out string) int {
 func runProbes(cli string, s *scenario, home string, fx *fixture) probe {
 	env := s.env(home, fx)
 	var pr probe
-	code, out := runCLI(cli, env, 20*time.Second, "SELECT 1")
+	code, out := runCLI(cli, env, 60*time.Second, "SELECT 1")
 	pr.start = startCode(code, out)
 	for i, d := range s.dbs {
 		marker := filepath.Join(home, fmt.Sprintf("marker-%d", i))
 		os.Remove(marker)
-		code, out := runCLI(cli, append(env, "VERIF_MARKER="+marker), 4*time.Second, fmt.Sprintf("SELECT * FROM %s.t", d.name))
+		code, out := runCLI(cli, append(env, "VERIF_MARKER="+marker), 5*time.Second, fmt.Sprintf("SELECT * FROM %s.t", d.name))
+		if code == -2 { // a loaded machine, or a cut stub that exits 0 and never opens its socket: try once more, patiently
+			os.Remove(marker)
+			code, out = runCLI(cli, append(env, "VERIF_MARKER="+marker), 40*time.Second, fmt.Sprintf("SELECT * FROM %s.t", d.name))
+		}
 		m, _ := os.ReadFile(marker)
 		line := strings.Split(strings.TrimSpace(string(m)), "\n")[0]
 		obs, js, ran := "", interface{}(nil), ""
@@ -571,7 +575,7 @@ func runProbes(cli string, s *scenario, home string, fx *fixture) probe {
 	}
 	pr.repos = pr.start == 0 // no query runs when start-up fails
 	if _, err := os.Stat(filepath.Join(home, ".octosql", "repositories")); err == nil && pr.start == 0 {
-		code, out := runCLI(cli, env, 20*time.Second, "SELECT slug FROM plugins.repositories")
+		code, out := runCLI(cli, env, 60*time.Second, "SELECT slug FROM plugins.repositories")
 		pr.repos = code == 0
 		_ = out
 	}
@@ -641,7 +645,7 @@ func run(f lib.Flags) error {
 	}
 	defer os.RemoveAll(scratch)
 
-	nInstall, nAdd := 6, 2
+	nInstall, nAdd := 5, 2
 	if f.Tier == "thorough" {
 		nInstall, nAdd = 40, 10
 	}
